@@ -60,16 +60,14 @@ fn family_of(dt: &DataType) -> String {
         Duration(_) => "Duration".into(),
         Interval(_) => "Interval".into(),
         FixedSizeBinary(_) => "FixedSizeBinary".into(),
-        List(c) => format!("List<{}>", family_of(c.data_type())),
-        LargeList(c) => format!("LargeList<{}>", family_of(c.data_type())),
-        ListView(c) => format!("ListView<{}>", family_of(c.data_type())),
-        LargeListView(c) => format!("LargeListView<{}>", family_of(c.data_type())),
-        FixedSizeList(c, _) => format!("FixedSizeList<{}>", family_of(c.data_type())),
-        Struct(fs) => format!("Struct<{}>", fs.iter().map(|c| family_of(c.data_type())).collect::<Vec<_>>().join(",")),
-        Map(c, _) => match c.data_type() {
-            Struct(fs) => format!("Map<{}>", family_of(fs[1].data_type())),
-            _ => "Map".into(),
-        },
+        // nested types: the outermost constructor only (one levels / reader defect = one class)
+        List(_) => "List".into(),
+        LargeList(_) => "LargeList".into(),
+        ListView(_) => "ListView".into(),
+        LargeListView(_) => "LargeListView".into(),
+        FixedSizeList(_, _) => "FixedSizeList".into(),
+        Struct(_) => "Struct".into(),
+        Map(_, _) => "Map".into(),
         Dictionary(_, v) => format!("Dictionary<{}>", family_of(v)),
         RunEndEncoded(_, v) => format!("RunEndEncoded<{}>", family_of(v.data_type())),
         other => format!("{other}"),
